@@ -46,6 +46,7 @@ THEOREMS = [
     "BeyondVerif.C03.eop_record_of_day",
     "BeyondVerif.C03.eop_record_spec",
     "BeyondVerif.C03.leap_table_lookup",
+    "BeyondVerif.C03.leap_table_is_parsed_file",
     "BeyondVerif.C03.add_clock",
     "BeyondVerif.C03.add_sub",
     "BeyondVerif.C03.add_sub_const_scales",
@@ -71,16 +72,21 @@ LEVEL_TEXT = ("Lean theorems over an exact integer model (ticks of 1e-7 s) of Da
               "whole-microsecond reading) with UT1 when both dates carry the same record; the record of a date is the one tabulated for its UTC reading (second lookup of fix fc514f7); "
               "d+t moves the clock reading by exactly t in every scale, (d+t)-d=t and associativity in TAI/TT/GPS unconditionally; comparisons/hash are those of the "
               "microsecond-exact `_datetime`, agree with `-` and are functions of the instant; DateRange iteration is the arithmetic progression of length len, all members `in` the range, for both step signs (induction); "
-              "|TDB-TT| < 1.7 ms over R for the formula translated from the AST. Exact differential correspondence of the compiled model with the real classes.")
+              "|TDB-TT| < 1.7 ms over R for the formula translated from the AST. 'As tabulated for that day': for every table with ascending dates and every mjd the TAI-UTC lookup returns "
+              "the value of the entry with the greatest date <= mjd (exactly at an entry's date the entry itself, one tick earlier the one before, nothing before the first entry), the record is a "
+              "function of the day number and is exactly (finals[day], that entry) — tied to SimpleEopDatabase.tai_utc / finals / EopDb.get at every entry date of tai-utc.dat exactly and +-1 us, "
+              "and to the readers on the text of the files. Exact differential correspondence of the compiled model with the real classes.")
 LEVEL_NOTE = ("Python keeps seconds of day in a double: the integer model is tied on microsecond-exact inputs by exact correspondence (1-4 us slack only where UT1's 0.1-us column or "
               "the float TDB term enter, and where the double `mjd_utc` decides the day within 3 us of UTC midnight); 'same instant within 1 us' for UT1 is still false within one day's change of "
               "UT1-UTC of UTC midnight (open finding, kernel-checked witness) and is proved as 1.5 us under 'same EOP record'; DateRange is modelled on instants")
 TECHNIQUE = "Lean 4 proof (omega / induction / kernel decide on regenerated tables / real analysis for the TDB bound) + exact model-implementation correspondence"
 TRUSTED = [
     "harness/props/C03.py extract: Timescale method table and Date constants from the AST, TDB formula through harness/py2lean.py, IERS tables through an independent "
-    "fixed-column decimal parser (checked against the real readers for every day in the thorough tier, for a sample in the quick tier)",
+    "fixed-column decimal parser (checked on every run against the Lean column parsers of Model/EopFile.lean fed the text of the three files and against the real readers TaiUtc / Finals / "
+    "Finals2000A, every line; against EopDb.get for every day in the thorough tier, at every table abscissa and a sample of days in the quick tier)",
     "harness/extract_graphs.py: the scale graph in execution order (shared with C20)",
-    "correspondence: real Date / DateRange / Timescale.offset / EopDb.get vs the compiled Lean model through microsecond observables (_datetime, datetime, _offset, eop, d/s, -, comparisons, hash, len/iter/in)",
+    "correspondence: real Date / DateRange / Timescale.offset / EopDb.get / SimpleEopDatabase.tai_utc / .finals / TaiUtc / Finals / Finals2000A vs the compiled Lean model through microsecond observables "
+    "(_datetime, datetime, _offset, eop, d/s, -, comparisons, hash, len/iter/in, the readers' data)",
 ]
 ASSUMPTIONS = [
     "Model/Date.lean is hand-written exact integer arithmetic; the code computes in doubles. Tied by exact correspondence on microsecond-exact inputs in 1973-2017 "
@@ -96,7 +102,12 @@ NOT_COVERED = [
     "UT1/TDB round trip 'within 2 us' and 'UT1: within one day's change of UT1-UTC': oracle only",
     "x, y, lod, dx, dy, dpsi, deps columns of the EOP record (used by frames, not by time scales)",
     "the day number of `mjd_utc` is taken from a double (resolution 0.6 us): within that distance of UTC midnight the code may pick either neighbouring record; the model uses the exact day",
-    "leap-second windows (documented limitation of the library); Date.now, strptime, pickling",
+    "leap-second windows (documented limitation of the library) except the statements that are unambiguous there: a UTC date from 00:00:00.000000 of the day an entry of tai-utc.dat takes effect "
+    "carries the new TAI-UTC, up to 23:59:59.999999 of the eve the old one (oracle family leap-day:*); Date.now, strptime, pickling",
+    "Model/EopFile.lean reads plain decimal literals in fixed columns (what the IERS files contain); exponents, inf/nan, underscores, tabs — which Python's float()/split() also accept — are rejected by the model; "
+    "the dX/dY/LOD fall-back of the finals readers to the previous day is not modelled (not time-scale columns)",
+    "the linear term of the pre-1972 entries of tai-utc.dat, `(MJD - 37300.) X 0.001296 S`, is ignored by the reader (field 6 only) and so by the model: TAI-UTC before 1972 is the constant term (outside the "
+    "property's 1973-2017 anyway)",
 ]
 OPEN = [
     "changeScale_instant_bound_partial: the property's 1 us for UT1 is proved as 1.5 us (three separate timedelta roundings; 0.5 us from a whole-microsecond clock reading) under the hypothesis "
@@ -105,7 +116,10 @@ OPEN = [
 ]
 RULE = ("correspondence: per scale / ordered pair random clock readings 1973-2017 (one third within 75 s of midnight, 12 % around leap seconds), constructors incl. seconds outside [0,86400) "
         "and dates outside the tables under the three policies, change_scale on all 36 pairs, +/- timedelta, compare/hash/difference of close instants, Timescale.offset with random EOP values, "
-        "TDB formula, EopDb.get per day (every day in thorough), DateRange with both step signs / inclusive / incoherent / null; distinct = distinct request line. "
+        "TDB formula, EopDb.get per day (every day in thorough), DateRange with both step signs / inclusive / incoherent / null plus a deterministic grid of range boundaries (exact multiples, +-1 us, whole-day and "
+        "sub-second remainders, steps > 1 day); the lookups tai_utc / finals / EopDb.get AT the tables' abscissae in every tier: each of the 41 entries of tai-utc.dat exactly, +-1 us, +-1 s, +-12 h, the day before "
+        "the first entry, first/last day of the finals files and their neighbours, holes, 150-200 random day boundaries (all in thorough); Date constructors / change_scale / + at every leap-second day of the finals "
+        "range exactly at 00:00:00 UTC, +-1 us, +-1 s (UTC) and +-5 us, +-1 s (other scales), Date(int mjd); the readers on every line of the three files and on perturbed copies; distinct = distinct request line. "
         "oracle: the property's predicates on the real API with the IERS tables of tests/data/pole; tolerances 0 (uniform), 1 us (instant, UT1/TDB), 2 us (clock readings, UT1/TDB offsets)")
 SCALES = ["UT1", "GPS", "TDB", "UTC", "TAI", "TT"]
 UNIFORM = ("UTC", "TAI", "TT", "GPS")
@@ -936,6 +950,12 @@ def eop_day_scale(tree):
     raise RuntimeError("Date.__init__: the second EOP lookup by UTC day is not there")
 
 
+def _lean_str(line):
+    if any(ord(c) < 32 or ord(c) > 126 or c in "'\\" for c in line):
+        raise RuntimeError("unexpected character in an IERS file line")
+    return "[" + ",".join("'%s'" % c for c in line) + "]"
+
+
 def extract(ctx):
     from harness import py2lean, instantiate
     from harness.props import C20
@@ -986,6 +1006,8 @@ def extract(ctx):
            "namespace BeyondVerif.Generated",
            "/-- `tai-utc.dat` in file order: (MJD of the entry, constant term of TAI−UTC in ticks of 1e-7 s) -/",
            "def leapTable : List (Int × Int) := [" + ", ".join(f"({m}, {v})" for m, v in leap) + "]",
+           "/-- the text of `tai-utc.dat`, line by line (`Props/C03.lean leap_table_is_parsed_file`: `leapTable` is its parse by Model/EopFile.lean) -/",
+           "def taiUtcText : List (List Char) := [" + ",\n  ".join(_lean_str(l) for l in open(os.path.join(pole_dir(), "tai-utc.dat"), encoding="ascii").read().splitlines()) + "]",
            f"def finalsFirst : Int := {first}", f"def finalsLast : Int := {last}",
            "/-- UT1−UTC per day from `finals.all`, ticks + 10^8 in 9 decimal digits per day (999999999 = no record) -/",
            "def ut1Raw : List String := [" + ",\n  ".join('"' + c + '"' for c in chunks) + "]",
@@ -1052,6 +1074,156 @@ def gen_any_label(rng, scale):
         if ld > tables()[2] + 2:
             return ld * DAY_US + rng.randint(-90 * 10**6, 90 * 10**6)
     return gen_label(rng, scale)
+
+
+def _enc(line):
+    return line.replace(" ", "~")
+
+
+def _model_tai(lines):
+    """TaiUtc.data according to Model/EopFile.lean, or 'crash'"""
+    tab = []
+    for r in core.Driver(ID).run(["d3ptai " + _enc(l) for l in lines]):
+        t = r.split()
+        if t[0] == "crash":
+            return "crash"
+        if t[0] == "ok":
+            tab.append((int(t[1]), int(t[2])))
+    return tab
+
+
+def _model_fin(lines):
+    """{mjd: UT1-UTC ticks} of a finals reader according to Model/EopFile.lean (stops at the first line without
+    x / y / UT1-UTC), or 'crash'"""
+    tab = {}
+    for r in core.Driver(ID).run(["d3pfin " + _enc(l) for l in lines]):
+        t = r.split()
+        if t[0] == "crash":
+            return "crash"
+        if t[0] == "stop":
+            break
+        tab[int(t[1])] = int(t[2])
+    return tab
+
+
+def _real_reader(cls, lines, tmpdir, name):
+    path = os.path.join(tmpdir, name)
+    with open(path, "w", encoding="ascii", newline="\n") as f:
+        f.write("\n".join(lines) + "\n")
+    try:
+        r = cls(path)
+    except (ValueError, IndexError):
+        return "crash"
+    except KeyError:
+        return "keyerror"      # dX / LOD fallback to the previous day on the first line: not a time-scale column
+    if isinstance(r.data, list):
+        return [(m, round(v * 1e7)) for m, v in r.data]
+    bad = [m for m, rec in r.data.items() if rec["mjd"] != m]
+    return {m: round(rec["ut1_utc"] * 1e7) for m, rec in r.data.items()} if not bad else {"mjd-field-differs": bad[:3]}
+
+
+def readers_correspondence(ctx, out):
+    """the real IERS readers (`TaiUtc`, `Finals`, `Finals2000A`) and the column parsers of Model/EopFile.lean on the same file
+    text: every line of the three files of tests/data/pole, then perturbed copies (blank / shifted / truncated columns, empty
+    lines, a bad MJD) written to a scratch folder — the `break` and the crash branches of the readers included. The regenerated
+    tables the theorems use (Generated/EopTable.lean) are compared with the Lean parse of the text as well."""
+    import tempfile
+    from beyond.dates.eop import TaiUtc, Finals, Finals2000A
+    rng = ctx.rng
+    text = {fn: open(os.path.join(pole_dir(), fn), encoding="ascii").read().splitlines() for fn in ("tai-utc.dat", "finals.all", "finals2000A.all")}
+    leap, ut1, first, last = tables()
+    with tempfile.TemporaryDirectory() as tmp:
+        m_tai = _model_tai(text["tai-utc.dat"])
+        r_tai = _real_reader(TaiUtc, text["tai-utc.dat"], tmp, "tai-utc.dat")
+        out.count(key="reader-tai-utc", kind="reader-file", file="tai-utc.dat", lines=len(text["tai-utc.dat"]))
+        if r_tai != m_tai:
+            diff = [(a, b_) for a, b_ in zip(r_tai, m_tai) if a != b_][:3] if isinstance(r_tai, list) and isinstance(m_tai, list) else None
+            out.fail("reader-tai-utc", "TaiUtc reader and Model/EopFile.lean differ on tests/data/pole/tai-utc.dat", "tai-utc.dat", observed=diff or str(r_tai)[:200], expected=str(m_tai)[:200])
+        gen = []
+        for i in range(len(leap) + 2):
+            r = core.Driver(ID).run([f"d3gleap {i}"])[0].split()
+            if r[0] != "ok":
+                break
+            gen.append((int(r[1]), int(r[2])))
+        if m_tai != gen or gen != leap:
+            out.fail("generated-leap-table", "Generated/EopTable.lean leapTable is not the Lean parse of tai-utc.dat", "tai-utc.dat", observed=str(gen)[:200], expected=str(m_tai)[:200])
+        m_fin = {}
+        for fn, cls in (("finals.all", Finals), ("finals2000A.all", Finals2000A)):
+            m_fin[fn] = _model_fin(text[fn])
+            r_fin = _real_reader(cls, text[fn], tmp, fn)
+            out.count(key="reader-" + fn, kind="reader-file", file=fn, lines=len(text[fn]))
+            if r_fin != m_fin[fn]:
+                if isinstance(r_fin, dict) and isinstance(m_fin[fn], dict):
+                    keys = sorted(set(r_fin) ^ set(m_fin[fn]))[:3] or [k for k in sorted(r_fin) if r_fin[k] != m_fin[fn][k]][:3]
+                    what = {k: (r_fin.get(k), m_fin[fn].get(k)) for k in keys}
+                else:
+                    what = (str(r_fin)[:100], str(m_fin[fn])[:100])
+                out.fail("reader-" + fn, f"{cls.__name__} reader and Model/EopFile.lean differ on tests/data/pole/{fn}", fn, observed=what)
+        if all(isinstance(m_fin[fn], dict) for fn in m_fin):
+            merged = {d: m_fin["finals2000A.all"].get(d) for d in m_fin["finals.all"]}
+            if merged != ut1:
+                out.fail("generated-finals-table", "Generated/EopTable.lean ut1Raw is not the Lean parse of the finals files (days of finals, values of finals2000A)", "finals",
+                         observed=len(merged), expected=len(ut1))
+        # perturbed text
+        for k in range(ctx.n(120, 600)):
+            if k % 3 == 0:
+                lines = list(text["tai-utc.dat"][rng.randint(0, 30):][:rng.randint(1, 12)])
+                cls, name = TaiUtc, "tai-utc.dat"
+                i = rng.randrange(len(lines))
+                how = rng.choice(["empty-line", "blank-line", "drop-field", "extra-blanks", "bad-jd", "bad-value", "none", "jd-whole", "value-int"])
+                f = lines[i].split()
+                if how == "empty-line":
+                    lines.insert(i, "")
+                elif how == "blank-line":
+                    lines.insert(i, "   ")
+                elif how == "drop-field":
+                    lines[i] = " ".join(f[:rng.randint(3, 6)])
+                elif how == "extra-blanks":
+                    lines[i] = "   " + "    ".join(f) + "  "
+                elif how == "bad-jd":
+                    lines[i] = lines[i].replace(f[4], f[4].replace(".", ":"))
+                elif how == "bad-value":
+                    lines[i] = " ".join(f[:6] + ["1.2.3"] + f[7:])
+                elif how == "jd-whole":
+                    lines[i] = " ".join(f[:4] + [f[4].split(".")[0] + rng.choice([".0", ".5", ".9", ""])] + f[5:])
+                elif how == "value-int":
+                    lines[i] = " ".join(f[:6] + [rng.choice(["37", "37.", "-1.5", "+2.25", ".5"])] + f[7:])
+                model = _model_tai(lines)
+            else:
+                fn = rng.choice(["finals.all", "finals2000A.all"])
+                cls, name = (Finals, fn) if fn == "finals.all" else (Finals2000A, fn)
+                at = rng.choice([0, len(text[fn]) - 40, rng.randrange(len(text[fn]) - 40), max(0, len(m_fin[fn]) - 5 if isinstance(m_fin[fn], dict) else 0)])
+                lines = list(text[fn][at:at + rng.randint(2, 25)])
+                i = rng.randrange(1, len(lines))
+                how = rng.choice(["blank-ut1", "blank-x", "blank-y", "truncate", "bad-mjd", "shift", "none", "ut1-sign", "dup-day", "mjd-frac"])
+                ln = lines[i]
+                if how == "blank-ut1":
+                    lines[i] = ln[:58] + " " * 10 + ln[68:]
+                elif how == "blank-x":
+                    lines[i] = ln[:18] + " " * 9 + ln[27:]
+                elif how == "blank-y":
+                    lines[i] = ln[:37] + " " * 9 + ln[46:]
+                elif how == "truncate":
+                    lines[i] = ln[:rng.choice([16, 30, 50, 60, 66, 70])]
+                elif how == "bad-mjd":
+                    lines[i] = ln[:7] + " 4x684.00"[:8] + ln[15:]
+                elif how == "shift":
+                    lines[i] = ln[:57] + ln[58:]
+                elif how == "ut1-sign":
+                    lines[i] = ln[:58] + ("%10s" % rng.choice(["-0.1234567", "+0.7654321", " .5000000", "0.1", "-.25"])) + ln[68:]
+                elif how == "dup-day":
+                    lines.insert(i, lines[i - 1][:58] + ("%10.7f" % rng.uniform(-0.9, 0.9)) + lines[i - 1][68:])
+                elif how == "mjd-frac":
+                    lines[i] = ln[:7] + ("%8.2f" % (float(ln[7:15]) + rng.choice([0.25, 0.5, 0.99]))) + ln[15:]
+                model = _model_fin(lines)
+            real = _real_reader(cls, lines, tmp, name)
+            out.count(key=("reader", name, how, tuple(lines)), kind="reader-perturbed", file=name, how=how,
+                      reply=(real if isinstance(real, str) else "table"))
+            if real == "keyerror":
+                continue
+            if real != model:
+                out.fail(f"reader-perturbed:{name}:{how}", f"{cls.__name__} reader and Model/EopFile.lean differ on a perturbed file", {"file": name, "how": how, "lines": lines},
+                         observed=str(real)[:300], expected=str(model)[:300])
 
 
 def correspondence(ctx):
@@ -1276,6 +1448,8 @@ def correspondence(ctx):
         set_policy("pass")
         log.removeHandler(grab)
         log.setLevel(old_level)
+
+    readers_correspondence(ctx, out)
 
     # DateRange vs the model on instants
     rng_cases = []
